@@ -111,6 +111,18 @@ def C05_watch_detects_change : Prop :=
     NMap.get s k ≠ NMap.get s0 k →
     step KV.backend [] t s .exec = (ConnTxn.idle, s, .nil)
 
+/-- executor level, trace form with a repeated WATCH: `WATCH k` (store `s0`), … `WATCH k` again
+    (store `s1`), `MULTI`, `EXEC` (store `s`): if the value of `k` at EXEC differs from its value
+    at the FIRST watch, EXEC returns nil (re-watching a watched key must not forget the change —
+    in Redis it is a no-op). -/
+def C05_x_rewatch_keeps_first : Prop :=
+  ∀ (s0 s1 s : KV.Store) (k : Nat),
+    let t1 := (xstep KV.xbackend (.simple .ok) ExTxn.idle s0 (.watch [k])).1
+    let t2 := (xstep KV.xbackend (.simple .ok) t1 s1 (.watch [k])).1
+    let t3 := (xstep KV.xbackend (.simple .ok) t2 s1 .multi).1
+    NMap.get s k ≠ NMap.get s0 k →
+    (xstep KV.xbackend (.simple .ok) t3 s .exec).2.2 = .nil
+
 /-! ## between MULTI and EXEC -/
 
 section
@@ -395,6 +407,14 @@ theorem watch_snapshot_is_get (B : Backend σ κ γ ρ) (sc : List (List γ)) (t
     step B sc t s (.watch ks) =
       ({ t with watched := t.watched ++ ks.map (fun k => (k, B.getReply s k)) }, s, .ok) := by
   simp [step, hout]
+
+/-- a repeated WATCH of the same key keeps the earlier snapshot (connection level): both are
+    compared at EXEC -/
+theorem rewatch_keeps_first_snapshot (B : Backend σ κ γ ρ) (sc : List (List γ)) (t : ConnTxn κ γ ρ)
+    (s : σ) (ks : List κ) (p : κ × ρ) (hout : t.inTxn = false) (hp : p ∈ t.watched) :
+    p ∈ (step B sc t s (.watch ks)).1.watched := by
+  rw [watch_snapshot_is_get B sc t s ks hout]
+  simp [hp]
 
 /-- if the GET-visible value of a watched key at EXEC differs from its snapshot, EXEC returns nil
     and applies nothing -/
@@ -742,6 +762,16 @@ theorem x_table_everything_is_queued (X : XBackend σ κ γ ρ ν) (okR : ρ) (t
   simp [xstep, h]
 
 end
+
+/-- executor level: `SET k 0; WATCH k; SET k 1; WATCH k; MULTI; …; EXEC` succeeds — the second
+    WATCH overwrote the snapshot (`HashMap::insert`), the change since the first WATCH is
+    forgotten.  (What IS proved: `x_watch_snapshot` + `x_watch_detects_change` — every change
+    since the LAST watch of the key is detected.) -/
+theorem x_rewatch_forgets_change_counterexample : ¬ C05_x_rewatch_keeps_first := by
+  intro h
+  have := h [(1, .str [48])] [(1, .str [49])] [(1, .str [49])] 1 (by decide)
+  revert this
+  decide
 
 /-! ## non-vacuity: concrete, non-trivial instances of the hypotheses -/
 
